@@ -67,7 +67,14 @@ func genC15(t *rapid.T) (C15Case, bool) {
 	b := a.Clone()
 	var c C15Case
 	applied := false
-	if rapid.Bool().Draw(t, "wireEdit") {
+	if d := b.Find("TwiceArgB"); d != nil && len(d.Fields) > 0 && d.Fields[0].Type.Kind == model.KPrim && rapid.Bool().Draw(t, "editSecondInstantiation") {
+		// the edit lands in a type that reaches the protocol only as the argument of the second
+		// instantiation of a generic record
+		d.Fields[0].Type = model.Prim("float64")
+		c = C15Case{A: a, B: b, Edit: "wire:prim-class@TwiceArgB." + d.Fields[0].Name}
+		applied = true
+	}
+	if !applied && rapid.Bool().Draw(t, "wireEdit") {
 		// an edit from C04's table: each changes how some value is encoded
 		if kind, where, ok := wireEdit(t, b); ok {
 			c = C15Case{A: a, B: b, Edit: "wire:" + kind + "@" + where}
